@@ -40,6 +40,10 @@ fn bias(id: &str, tier: Tier) -> Bias {
     }
 }
 
+pub fn hex_pub(b: &[u8]) -> String {
+    hex(b)
+}
+
 fn hex(b: &[u8]) -> String {
     let mut s = String::with_capacity(b.len() * 2);
     for x in b {
